@@ -146,7 +146,37 @@ class Deployment:
     def make_joker(self, pool, rng):
         import thejoker as tj
 
-        return tj.TheJoker(self.world.prior, pool=pool, rng=rng, tempfile_path=self.world.tmpdir)
+        j = tj.TheJoker(self.world.prior, pool=pool, rng=rng, tempfile_path=self.world.tmpdir)
+        ov = self.program["config"].get("ll_override")
+        if ov:
+            from . import llproxy
+
+            keys = self.override_keys()
+            orig = j._make_joker_helper
+
+            def _make_joker_helper(data):
+                return llproxy.HelperProxy(orig(data), keys[data_unit_key(data)], -np.inf)
+
+            # keys depend on the data's RV unit only through column s, which is not part of the key
+            def data_unit_key(data):
+                return "k"
+
+            j._make_joker_helper = _make_joker_helper
+        return j
+
+    def override_keys(self):
+        """Nonlinear values (P[d], e, omega[rad], M0[rad]) of every row whose likelihood is forced."""
+        if getattr(self, "_ov_keys", None) is None:
+            import astropy.units as u
+
+            rows = []
+            for li, spec in (self.program["config"].get("ll_override") or {}).items():
+                lib = self.world.libraries[int(li)]
+                vals = lib.nonlinear_in({"P": u.day, "omega": u.rad, "M0": u.rad}, spec["rows"])
+                for i in range(len(spec["rows"])):
+                    rows.append([vals["P"][i], vals["e"][i], vals["omega"][i], vals["M0"][i]])
+            self._ov_keys = {"k": np.array(rows, dtype=np.float64).reshape(-1, 4)}
+        return self._ov_keys
 
     def close(self):
         for mod, name, orig in self._restore:
